@@ -718,6 +718,14 @@ pub fn assemble_sentence(raw: &RawSentence, spec: &DictSpec, user: &[LexRow], ma
                     }
                 }
             }
+            7 if r % 4 == 0 && max_chars >= 40 => {
+                // a run of 24..27 equal characters: reaches the grouping bound of MeCab's
+                // default max_grouping_len = 24 (run-1 ∈ {23, 24, 25, 26})
+                let c = ALPHABET[pick(r, ALPHABET.len())];
+                for _ in 0..(23 + usize::from(n)) {
+                    s.push(c);
+                }
+            }
             _ => {
                 s.push(ALPHABET[pick(r, ALPHABET.len())]);
             }
